@@ -444,6 +444,7 @@ def check(ctx):
         from .c09 import _Rename as _Rn
         _c01.r3_writers(ctx, f, _Rn(rep, 'C01-R3', 'C10-R3'))
         r4_rejoin_or_defunct(ctx, f, rep)
+        _cmn.routing_reads_current_identity(ctx, f, rep, 'C10-R4')
         # wire-visible clause: the header reads self.identity / self.incarnation at send time (C07-R1 re-run)
         from . import c07, c08
         from .c09 import _Rename
